@@ -4,7 +4,9 @@ package main
 
 import (
 	"context"
+	"database/sql/driver"
 	"encoding/json"
+	"errors"
 	"fmt"
 	"os"
 	"sync"
@@ -22,9 +24,18 @@ type c10Row struct {
 	A  *int64
 	B  int64
 	S  string
+	J  c10J `sql:",json"`
 }
 
-var c10ColID = map[string]int{"id": 0, "a": 1, "b": 2, "s": 3}
+// c10J: a column stored as JSON; a filter on it travels as the struct and is compared as the marshalled bytes
+type c10J struct{ K int64 }
+
+// c10BadValuer: a filter value its own Valuer rejects
+type c10BadValuer struct{}
+
+func (c10BadValuer) Value() (driver.Value, error) { return nil, errors.New("c10: value rejected") }
+
+var c10ColID = map[string]int{"id": 0, "a": 1, "b": 2, "s": 3, "j": 4}
 
 // c10Val: a filter value: payload and the Go representation it travels in
 type c10Val struct {
@@ -53,6 +64,12 @@ func (v c10Val) goValue() interface{} {
 	case "strptr":
 		s := fmt.Sprintf("s%d", v.V)
 		return &s
+	case "json":
+		return c10J{K: v.V}
+	case "jsonptr":
+		return &c10J{K: v.V}
+	case "bad":
+		return c10BadValuer{}
 	}
 	return v.V
 }
@@ -61,7 +78,7 @@ func (v c10Val) enc() interface{} {
 	if v.Rep == "nil" || v.Rep == "nilptr" {
 		return nil
 	}
-	ty := map[string]int{"int64": 0, "int": 1, "ptr": 2, "named": 3, "string": 4, "strptr": 5}[v.Rep]
+	ty := map[string]int{"int64": 0, "int": 1, "ptr": 2, "named": 3, "string": 4, "strptr": 5, "json": 6, "jsonptr": 7}[v.Rep]
 	return map[string]interface{}{"ty": ty, "v": v.V}
 }
 
@@ -115,16 +132,19 @@ func c10ModelIds(v interface{}) []int64 {
 func c10One(c *Ctx, m *Model, cs c10Case) {
 	rep := c.Rep
 	fdb, conn := newFakeDB()
-	fdb.createTable("rows", []string{"id", "a", "b", "s"}, []string{"id"})
+	fdb.createTable("rows", []string{"id", "a", "b", "s", "j"}, []string{"id"})
 	table := []interface{}{}
 	for _, r := range cs.Table {
+		for len(r) < 5 {
+			r = append(r, 0)
+		}
 		a := driverNull(r[1], r[1] < 0)
-		fdb.tables["rows"].Rows = append(fdb.tables["rows"].Rows, map[string]driverValue{"id": r[0], "a": a, "b": r[2], "s": fmt.Sprintf("s%d", r[3])})
+		fdb.tables["rows"].Rows = append(fdb.tables["rows"].Rows, map[string]driverValue{"id": r[0], "a": a, "b": r[2], "s": fmt.Sprintf("s%d", r[3]), "j": []byte(fmt.Sprintf(`{"K":%d}`, r[4]))})
 		var am interface{}
 		if r[1] >= 0 {
 			am = r[1]
 		}
-		table = append(table, []interface{}{[]interface{}{0, r[0]}, []interface{}{1, am}, []interface{}{2, r[2]}, []interface{}{3, r[3]}})
+		table = append(table, []interface{}{[]interface{}{0, r[0]}, []interface{}{1, am}, []interface{}{2, r[2]}, []interface{}{3, r[3]}, []interface{}{4, r[4]}})
 	}
 	schema := sqlgen.NewSchema()
 	schema.MustRegisterType("rows", sqlgen.UniqueId, c10Row{})
@@ -163,9 +183,15 @@ func c10One(c *Ctx, m *Model, cs c10Case) {
 		return
 	}
 	nStmts := len(fdb.statements())
+	// the model is given the filters sqlgen accepts (the others return their error before any statement)
 	fsEnc := []interface{}{}
-	for _, f := range cs.Filters {
-		fsEnc = append(fsEnc, c10EncFilter(f))
+	midx := make([]int, k)
+	for i, f := range cs.Filters {
+		midx[i] = -1
+		if c10Valid(f) {
+			midx[i] = len(fsEnc)
+			fsEnc = append(fsEnc, c10EncFilter(f))
+		}
 	}
 	resp, err := m.Call(map[string]interface{}{"op": "batch", "filters": fsEnc, "table": table})
 	if err != nil {
@@ -179,11 +205,16 @@ func c10One(c *Ctx, m *Model, cs c10Case) {
 				"alone": alone[i], "batched": batched[i], "alone_error": fmt.Sprint(aloneErr[i]), "batched_error": fmt.Sprint(batchedErr[i]), "statements": fdb.statements()})
 			return
 		}
+		if c10Valid(cs.Filters[i]) != (aloneErr[i] == nil) {
+			rep.Fail("impl_ne_model", nil, cs, map[string]interface{}{"what": "a query on its own: error expected iff the filter names an unknown column or carries a rejected value", "query": i, "filter": cs.Filters[i], "error": fmt.Sprint(aloneErr[i])})
+			return
+		}
 		if aloneErr[i] != nil {
+			rep.Count("invalid_filter_in_batch")
 			continue
 		}
-		mAlone := c10ModelIds(resp["alone"].([]interface{})[i])
-		mBatched := c10ModelIds(resp["batched"].([]interface{})[i])
+		mAlone := c10ModelIds(resp["alone"].([]interface{})[midx[i]])
+		mBatched := c10ModelIds(resp["batched"].([]interface{})[midx[i]])
 		if fmt.Sprint(mAlone) != fmt.Sprint(mBatched) {
 			rep.Fail("model_ne_spec", nil, cs, map[string]interface{}{"what": "model: dispatched differs from alone (theorem batch_eq_alone)", "query": i})
 			return
@@ -199,10 +230,32 @@ func c10One(c *Ctx, m *Model, cs c10Case) {
 
 func c10KF(cs c10Case, i int) []string { return nil }
 
+func c10Valid(f []c10KV) bool {
+	for _, kv := range f {
+		if _, ok := c10ColID[kv.Col]; !ok || kv.Val.Rep == "bad" {
+			return false
+		}
+	}
+	return true
+}
+
 func c10GenFilter(r *Rand) []c10KV {
 	intRep := func() string { return []string{"int64", "int64", "int", "ptr", "named"}[r.Intn(5)] }
 	var f []c10KV
-	switch r.Intn(8) {
+	switch r.Intn(11) {
+	case 8:
+		f = []c10KV{{"j", c10Val{[]string{"json", "jsonptr"}[r.Intn(2)], int64(r.Intn(3))}}}
+	case 9:
+		f = []c10KV{{"j", c10Val{"json", int64(r.Intn(3))}}, {"b", c10Val{intRep(), int64(r.Intn(3))}}}
+	case 10:
+		switch r.Intn(3) {
+		case 0:
+			f = []c10KV{{"zz", c10Val{"int64", int64(r.Intn(3))}}}
+		case 1:
+			f = []c10KV{{"b", c10Val{"bad", 0}}}
+		default:
+			f = []c10KV{{"id", c10Val{intRep(), int64(1 + r.Intn(8))}}, {"zz", c10Val{"int64", 0}}}
+		}
 	case 0:
 	case 1, 2:
 		f = []c10KV{{"id", c10Val{intRep(), int64(1 + r.Intn(8))}}}
@@ -234,7 +287,7 @@ func runC10(c *Ctx) error {
 		return err
 	}
 	defer m.Close()
-	c.Rep.Rule = "random tables (0-8 rows, nullable pointer column, small value domains so that filters overlap) x sets of 1-5 filters (every 40th case 90-270) over different column sets (id / b / a / a+b / s / b+s / empty), equal filters repeated, values carried as int64, int, *int64, a named integer type, string, *string, nil and typed nil pointers; every filter is queried on its own and then all of them concurrently under batch.WithBatching on the same fake database; rows per call compared (the property), and compared with the Lean model's alone / dispatched"
+	c.Rep.Rule = "random tables (0-8 rows, nullable pointer column, small value domains so that filters overlap) x sets of 1-5 filters (every 40th case 90-270) over different column sets (id / b / a / a+b / s / b+s / j (a JSON column, filtered by struct or pointer) / j+b / empty), filters sqlgen rejects (unknown column, a value whose Valuer fails) mixed in, equal filters repeated, values carried as int64, int, *int64, a named integer type, string, *string, nil and typed nil pointers; every filter is queried on its own and then all of them concurrently under batch.WithBatching on the same fake database; rows per call compared (the property), and compared with the Lean model's alone / dispatched"
 	c.Rep.Assumptions = append(c.Rep.Assumptions,
 		"string comparison is case-sensitive in the fake database and in sqlgen's row tester (MySQL collations are not modelled)",
 		"whether concurrent calls end up in one batch is up to the batch timer; the number of statements is recorded")
@@ -261,7 +314,7 @@ func runC10(c *Ctx) error {
 	for i := 0; i < n && !c.Rep.ShouldStop(); i++ {
 		var cs c10Case
 		for id := int64(1); id <= int64(r.Intn(9)); id++ {
-			cs.Table = append(cs.Table, []int64{id, int64(r.Intn(4)) - 1, int64(r.Intn(3)), int64(r.Intn(3))})
+			cs.Table = append(cs.Table, []int64{id, int64(r.Intn(4)) - 1, int64(r.Intn(3)), int64(r.Intn(3)), int64(r.Intn(3))})
 		}
 		k := 1 + r.Intn(5)
 		if i%40 == 7 {
